@@ -527,6 +527,92 @@ class MemTransport(AsyncStreamTransport):
         return bytes(buf[:n])
 
 
+class RecTransportProxy(AsyncStreamTransport):
+    """Recording wrapper around a REAL wrapped transport (asyncio socket transport of the backend): same log entries as
+    MemTransport."""
+
+    def __init__(self, real, rec: Recorder):
+        super().__init__()
+        self.real, self.rec = real, rec
+
+    def backend(self):
+        return self.real.backend()
+
+    def is_closing(self):
+        return self.real.is_closing()
+
+    async def aclose(self):
+        self.rec.log("close", self.rec.tid())
+        await self.real.aclose()
+
+    @property
+    def extra_attributes(self):
+        return self.real.extra_attributes
+
+    async def send_eof(self):
+        await self.real.send_eof()
+
+    async def send_all(self, data):
+        data = bytes(data)
+        tid = self.rec.tid()
+        self.rec.log("send", tid, len(data), int(self.rec.last_bio_read is not None and data == self.rec.last_bio_read))
+        self.rec.cipher_out += data
+        try:
+            await self.real.send_all(data)
+        except asyncio.CancelledError:
+            self.rec.log("cancel", tid)
+            raise
+        except OSError:
+            self.rec.log("sent", tid, 0)
+            raise
+        self.rec.log("sent", tid, 1)
+
+    async def recv_into(self, buffer):
+        tid = self.rec.tid()
+        self.rec.log("recv", tid)
+        try:
+            n = await self.real.recv_into(buffer)
+        except asyncio.CancelledError:
+            self.rec.log("cancel", tid)
+            raise
+        except OSError:
+            self.rec.log("rcvd", tid, -1)
+            raise
+        self.rec.log("rcvd", tid, n)
+        return n
+
+    async def recv(self, bufsize):
+        buf = bytearray(bufsize)
+        n = await self.recv_into(buf)
+        return bytes(buf[:n])
+
+
+class patched_tls_wrap:
+    """Context manager: AsyncTLSStreamTransport.wrap(transport, ctx, ...) gets a recording transport proxy, a recording
+    SSL object and recording BIOs, whoever calls it (e.g. AsyncTCPNetworkClient)."""
+
+    def __init__(self, rec: Recorder):
+        self.rec = rec
+        self.ssl_patch = patched_ssl_module(rec)
+
+    def __enter__(self):
+        rec = self.rec
+        cls = tls_mod.AsyncTLSStreamTransport
+        self.saved = cls.__dict__["wrap"]
+        orig = self.saved.__func__
+
+        async def wrap(klass, transport, ssl_context, **kw):
+            return await orig(klass, RecTransportProxy(transport, rec), RecContext(ssl_context, rec), **kw)
+
+        cls.wrap = classmethod(wrap)
+        self.ssl_patch.__enter__()
+        return self
+
+    def __exit__(self, *a):
+        self.ssl_patch.__exit__(*a)
+        tls_mod.AsyncTLSStreamTransport.wrap = self.saved
+
+
 def new_backend():
     return AsyncIOBackend()
 
